@@ -170,3 +170,55 @@ Example C08_source_execute_item_witness :
   exists it, ME.entry_item (ME.stream_entry 4 8 (ME.mk_listed 7 MFl.Matches (MC.RCount 3) (Some 1))) = Some it /\
              MQ.it_w it = 3.
 Proof. eexists. vm_compute. split; reflexivity. Qed.
+
+(* ---- the dispatcher's run loop (C10; C11 / C12 for the delivery) *)
+
+(* C10 "after cancellation begins ... running units are told": the arm of DispatcherContext::run that acts on
+   HandleEventResponse::Cancel(..) makes exactly the broadcast [MD.broadcast_of] names -- the function the run-level
+   theorems (C10_cancel_request_reaches_units, Properties/Run.v) use for what the units receive: OtherCancel for
+   CancelEvent::Report (a reporter error) and CancelEvent::TestFailure (a test or setup-script failure under fail-fast),
+   Signal(Shutdown(req)) for a signal. Dropping the broadcast of the Report arm falsifies it. *)
+Theorem C10_source_run_cancel_broadcasts :
+  forall c,
+    map request_to_model (G.run_cancel_broadcasts c) =
+    match MD.broadcast_of (MD.RCancel (cancel_event_to_model c)) with Some b => [b] | None => [] end.
+Proof. exact gen_run_cancel_broadcasts_is_model. Qed.
+Print Assumptions C10_source_run_cancel_broadcasts.
+
+(* C10 / C11 / C12: broadcast_request returns the number of running units (the setup script, then the tests) whose
+   channel took the request, for every set of running units and every pattern of closed channels: it visits EVERY unit
+   and skips the closed ones. Stopping at the first closed channel (map_while) gives a smaller count and falsifies it. *)
+Theorem C10_source_broadcast_request :
+  forall script tests req,
+    G.DispatcherContext_broadcast_request (ctx_view script tests) req =
+    MBc.delivered_count (MBc.running_units script tests).
+Proof. exact gen_broadcast_request_is_model. Qed.
+Print Assumptions C10_source_broadcast_request.
+
+(* C12 "stop/continue pauses tests": SIGTSTP / SIGCONT are broadcast through the same function *)
+Theorem C12_source_broadcast_request :
+  forall script tests req u,
+    In u (MBc.running_units script tests) -> MBc.u_open u = true ->
+    In (MBc.u_id u) (MBc.delivered (MBc.running_units script tests)) /\
+    G.DispatcherContext_broadcast_request (ctx_view script tests) req =
+    N.of_nat (length (MBc.delivered (MBc.running_units script tests))).
+Proof.
+  intros script tests req u Hin Hop. split; [exact (PBc.delivered_every_open_unit _ u Hin Hop)|].
+  exact (gen_broadcast_request_is_model script tests req).
+Qed.
+Print Assumptions C12_source_broadcast_request.
+
+(* the model's side: every open unit gets it, only open units get it, a closed unit does not cut the rest off *)
+Theorem C10_broadcast_reaches_every_open_unit :
+  forall units u, In u units -> MBc.u_open u = true -> In (MBc.u_id u) (MBc.delivered units).
+Proof. exact PBc.delivered_every_open_unit. Qed.
+Print Assumptions C10_broadcast_reaches_every_open_unit.
+
+Theorem C10_broadcast_skips_closed_units :
+  forall a b, MBc.delivered (a ++ b) = MBc.delivered a ++ MBc.delivered b.
+Proof. exact PBc.delivered_app. Qed.
+Print Assumptions C10_broadcast_skips_closed_units.
+
+Example C10_source_broadcast_request_witness :
+  MBc.delivered (MBc.running_units None [MBc.mk_unit_chan 1 true; MBc.mk_unit_chan 2 false; MBc.mk_unit_chan 3 true]) = [1; 3].
+Proof. vm_compute. reflexivity. Qed.
